@@ -405,11 +405,20 @@ Proof.
   - apply supported_defaults_et_known; exact Hs.
 Qed.
 
-Theorem is_closed_eq_runtime_partial_lemma : forall e c,
-  wf_enum e c = true -> enum_type_known c = true -> is_closed e c = rt_is_closed e c.
+(* IsClosed: the full agreement (repaired code) *)
+Theorem is_closed_eq_runtime_lemma : forall e c,
+  wf_enum e c = true -> is_closed e c = rt_is_closed e c.
+Proof.
+  intros e c H. unfold wf_enum in H. apply andb_prop in H. destruct H as [Hs Hw].
+  unfold is_closed, rt_is_closed. rewrite (rt_flags_resolved e c Hs Hw). reflexivity.
+Qed.
+
+(* historical: the code before the repair (== CLOSED) agreed only when every override was OPEN or CLOSED *)
+Lemma is_closed_old_eq_runtime_partial_lemma : forall e c,
+  wf_enum e c = true -> enum_type_known c = true -> is_closed_old e c = rt_is_closed e c.
 Proof.
   intros e c H Hk. unfold wf_enum in H. apply andb_prop in H. destruct H as [Hs Hw].
-  unfold is_closed, rt_is_closed. rewrite (rt_flags_resolved e c Hs Hw). cbn [flags_of IsOpenEnum].
+  unfold is_closed_old, rt_is_closed. rewrite (rt_flags_resolved e c Hs Hw). cbn [flags_of IsOpenEnum].
   pose proof (resolved_et_known e c Hs Hk) as HR.
   unfold ET_OPEN, ET_CLOSED in *.
   destruct (resolve_feature e c EnumType =? 1) eqn:E1; destruct (resolve_feature e c EnumType =? 2) eqn:E2;
@@ -417,22 +426,34 @@ Proof.
   apply N.eqb_eq in E1. apply N.eqb_eq in E2. congruence.
 Qed.
 
-(* ENUM_TYPE_UNKNOWN (0) on an enum of an edition-2023 file: the linker says open, the runtime says closed *)
-Theorem is_closed_eq_runtime_refuted_lemma :
-  exists e c, wf_enum e c = true /\ is_closed e c <> rt_is_closed e c.
+(* historical: ENUM_TYPE_UNKNOWN (0) on an enum of an edition-2023 file: the old code said open, the runtime closed *)
+Lemma is_closed_old_eq_runtime_refuted_lemma :
+  exists e c, wf_enum e c = true /\ is_closed_old e c <> rt_is_closed e c.
 Proof.
   exists ED_2023, (CNest (mkfs None (Some 0) None None None None) (CFile fs_empty)).
   split; [vm_compute; reflexivity | vm_compute; discriminate].
 Qed.
 
 (* ------------------------------------------------------------------ required numbers *)
-Theorem required_numbers_eq_runtime_partial_lemma : forall fields,
+(* RequiredNumbers: the full agreement (repaired code: select on Cardinality()) *)
+Theorem required_numbers_eq_runtime_lemma : forall fields,
+  Forall (fun f => wf_field f = true) fields ->
+  required_numbers fields = rt_required_numbers fields.
+Proof.
+  intros fields Hwf. unfold required_numbers, rt_required_numbers. f_equal.
+  induction fields as [| f r IH]; [reflexivity |].
+  inversion Hwf as [| x l Hf Hr]; subst.
+  cbn [filter]. rewrite (IH Hr), (cardinality_eq_runtime_lemma f Hf). reflexivity.
+Qed.
+
+(* historical: the code before the repair (select on the label) agreed only without legacy-required fields *)
+Lemma required_numbers_old_eq_runtime_partial_lemma : forall fields,
   Forall (fun f => wf_field f = true) fields ->
   Forall (fun f => is_editions (f_edition f) = false \/
                    (f_resolve f FieldPresence =? FP_LEGACY_REQUIRED) = false) fields ->
-  required_numbers fields = rt_required_numbers fields.
+  required_numbers_old fields = rt_required_numbers fields.
 Proof.
-  intros fields Hwf Hg. unfold required_numbers, rt_required_numbers. f_equal.
+  intros fields Hwf Hg. unfold required_numbers_old, rt_required_numbers. f_equal.
   induction fields as [| f r IH]; [reflexivity |].
   inversion Hwf as [| x l Hf Hr]; subst. inversion Hg as [| x l Gf Gr]; subst.
   cbn [filter]. rewrite (IH Hr Gr).
@@ -452,26 +473,15 @@ Definition witness_lr_field : field :=
           (CNest (mkfs (Some FP_LEGACY_REQUIRED) None None None None None)
                  (CNest fs_empty (CFile (mkfs (Some FP_IMPLICIT) (Some ET_OPEN) None None None None)))).
 
-(* editions/features_with_overrides.proto, message foo.bar.baz.Foo, field id = 1 *)
-Theorem required_numbers_eq_runtime_refuted_lemma :
+(* historical: editions/features_with_overrides.proto, message foo.bar.baz.Foo, field id = 1 *)
+Lemma required_numbers_old_eq_runtime_refuted_lemma :
   exists fields, Forall (fun f => wf_field f = true) fields /\
-                 required_numbers fields = [] /\ rt_required_numbers fields = [1].
+                 required_numbers_old fields = [] /\ rt_required_numbers fields = [1].
 Proof.
   exists [witness_lr_field]. split; [| split].
   - constructor; [vm_compute; reflexivity | constructor].
   - vm_compute; reflexivity.
   - vm_compute; reflexivity.
-Qed.
-
-(* the repaired function (select on Cardinality()) agrees with the runtime on every well-formed message *)
-Theorem required_numbers_repaired_eq_runtime_lemma : forall fields,
-  Forall (fun f => wf_field f = true) fields ->
-  required_numbers_repaired fields = rt_required_numbers fields.
-Proof.
-  intros fields Hwf. unfold required_numbers_repaired, rt_required_numbers. f_equal.
-  induction fields as [| f r IH]; [reflexivity |].
-  inversion Hwf as [| x l Hf Hr]; subst.
-  cbn [filter]. rewrite (IH Hr), (cardinality_eq_runtime_lemma f Hf). reflexivity.
 Qed.
 
 (* ------------------------------------------------------------------ where the compiler's checks give wf *)
